@@ -1006,6 +1006,16 @@ func (e *Env) call(x *ECall) *SV {
 		return e.boolSV("(> " + arg(0).S + " " + e.old.alloc + ")")
 	case "allocated":
 		return e.boolSV("(and (> " + arg(0).S + " 0) (<= " + arg(0).S + " " + e.st.alloc + "))")
+	case "runeCount":
+		c.uses["str"] = true
+		c.declRuneCount()
+		return e.intSV("(ext.runecount " + arg(0).S + ")")
+	case "runesub":
+		// runesub(s, lo, hi): the string made of runes lo..hi-1 of s
+		c.uses["str"] = true
+		c.declareFun("ext.runes", []string{"String"}, "(Array Int Int)")
+		c.declareFun("ext.runestr", []string{"(Array Int Int)", "Int", "Int"}, "String")
+		return &SV{S: "(ext.runestr (ext.runes " + arg(0).S + ") " + arg(1).S + " " + arg(2).S + ")", T: types.Typ[types.String]}
 	case "preserved":
 		// preserved(<heap designator>): every object that existed on entry has the same contents in that heap
 		if e.old == nil {
@@ -1023,6 +1033,8 @@ func (e *Env) call(x *ECall) *SV {
 		return e.boolSV(and(parts...))
 	case "sref":
 		return e.intSV("(s-ref " + arg(0).S + ")")
+	case "scap":
+		return e.intSV("(s-cap " + arg(0).S + ")")
 	case "soff":
 		return e.intSV("(s-off " + arg(0).S + ")")
 	case "typeis":
